@@ -229,6 +229,12 @@ def run_layout(R, tonic):
             for bd in tonic.by_path[p]:
                 bad = [t['name'] for bb, t in bd.calls() if t.get('name') in ('split_to', 'split', 'split_off', 'freeze') and 'Bytes' in (t.get('fn') or '')]
                 R.check(not bad, 'C01.R5', 'no-split-in:%s' % short(bd.path), site(bd), 'buffer-splitting calls: %r' % bad)
+        # the source is fused: poll_next polls it again after Ready(None) when it first has to flush buffered frames
+        eb_new = tonic.body('codec::encode::EncodedBytes::<T, U>::new')
+        for bb_, i_, p_, a_, ops_ in mirlib.aggregates(eb_new, 'encode::EncodedBytes'):
+            srcv = eb_new.origin(ops_[a_['fields'].index('source')])
+            okf = is_call(strip_refs(srcv), name='fuse') and show(strip_refs(srcv)[2][0]).startswith('arg2')
+            R.check(okf, 'C01.R5', 'source-fused', site(eb_new, bb_, i_), 'EncodedBytes.source = source.fuse(): %r (an unfused source would be polled after it ended: no clean end of stream)' % okf)
         # R5c: an item taken from the source is always handed to encode_item (no return in between drops it)
         eb, et = pn.call1(name='encode_item')
         item_src = pn.origin(et['args'][6])
